@@ -38,6 +38,34 @@ run_overlay() {
       add "$CPTV/$f" "$SCRATCH/patched/cptv_$f"
     done
   fi
+  if [ "$PKG" = cmd/thermal-writer ]; then
+    # Engine B: reader/writer goroutines under the controlled scheduler (kit/vsched); the sources are
+    # instrumented copies of the CURRENT files (kit/cmd/vinstr, purely syntactic)
+    mkdir -p "$SCRATCH/instr"
+    (cd "$VERIF/kit" && go build -o "$SCRATCH/vinstr" ./cmd/vinstr) || { echo "BUILD FAILED (vinstr)" >&2; return 2; }
+    "$SCRATCH/vinstr" -in "$REPO/$PKG/main.go" -out "$SCRATCH/instr/main.go" -imports time=verifkit/vtime -const inFlight=@param -watch-call io.ReadFull:1:w,writeFrame:1:r || return 2
+    "$SCRATCH/vinstr" -in "$REPO/$PKG/thermalraw.go" -out "$SCRATCH/instr/thermalraw.go" -imports time=verifkit/vtime || return 2
+    "$SCRATCH/vinstr" -in "$REPO/$PKG/bufferedfile.go" -out "$SCRATCH/instr/bufferedfile.go" -expr '32*1024*1024=65536' || return 2
+    for f in main.go thermalraw.go bufferedfile.go; do add "$REPO/$PKG/$f" "$SCRATCH/instr/$f"; done
+  fi
+  if [ "$ID" = C16 ]; then
+    # Engine B for the snapshot/D-Bus request paths vs. the frame loop (only in the C16 build: the
+    # controlled mutex replaces sync.Mutex in these copies)
+    mkdir -p "$SCRATCH/instr"
+    (cd "$VERIF/kit" && go build -o "$SCRATCH/vinstr" ./cmd/vinstr) || { echo "BUILD FAILED (vinstr)" >&2; return 2; }
+    local W="-watch-var processor,headerInfo -watch-field CurrentFrame,StartSnapshot,currentIndex"
+    "$SCRATCH/vinstr" -in "$REPO/motion/frameloop.go" -out "$SCRATCH/instr/frameloop.go" -imports sync=verifkit/vsync $W || return 2
+    "$SCRATCH/vinstr" -in "$REPO/motion/motionprocessor.go" -out "$SCRATCH/instr/motionprocessor.go" $W || return 2
+    "$SCRATCH/vinstr" -in "$REPO/$PKG/main.go" -out "$SCRATCH/instr/main.go" $W || return 2
+    "$SCRATCH/vinstr" -in "$REPO/$PKG/snapshot.go" -out "$SCRATCH/instr/snapshot.go" -imports sync=verifkit/vsync,time=verifkit/vtime $W || return 2
+    "$SCRATCH/vinstr" -in "$REPO/$PKG/service.go" -out "$SCRATCH/instr/service.go" $W || return 2
+    "$SCRATCH/vinstr" -in "$REPO/$PKG/boson.go" -out "$SCRATCH/instr/boson.go" -points-in convertRawBosonFrame || return 2
+    "$SCRATCH/vinstr" -in "$CPTV/cptvframe/frame.go" -out "$SCRATCH/instr/frame.go" -points-in Copy,CreateCopy || return 2
+    add "$REPO/motion/frameloop.go" "$SCRATCH/instr/frameloop.go"
+    add "$REPO/motion/motionprocessor.go" "$SCRATCH/instr/motionprocessor.go"
+    for f in main.go snapshot.go service.go boson.go; do add "$REPO/$PKG/$f" "$SCRATCH/instr/$f"; done
+    add "$CPTV/cptvframe/frame.go" "$SCRATCH/instr/frame.go"
+  fi
   if [ -n "${VERIF_EXTRA_OVERLAY:-}" ]; then . "$VERIF_EXTRA_OVERLAY"; fi
   printf '}}\n' >> "$OV"
   ( cd "$REPO/$PKG" && GODEBUG=goindex=0 go test -c -overlay "$OV" -modfile="$SCRATCH/repo.mod" -vet=off -o "$SCRATCH/ovl.test" . ) || { echo "BUILD FAILED (overlay harness for $ID against $REPO)" >&2; return 2; }
